@@ -20,14 +20,24 @@ import (
 func (vm *VM) runFunc(fn *Function, vars []reflect.Value) error {
 	vm.fn = fn
 	vm.vars = vars
+	if verifOn {
+		verifRT(vm, "run-start", 0, 0)
+		defer verifRT(vm, "run-end", 0, 0)
+	}
 	var stop chan struct{}
 	if vm.env.doneChan != nil {
 		stop = make(chan struct{})
 		go func() {
 			select {
 			case <-stop:
+				if verifOn {
+					verifRT(vm, "watcher-released", 0, 0)
+				}
 			case <-vm.env.ctx.Done():
 				atomic.StoreInt32(&vm.env.done, 1)
+				if verifOn {
+					verifRT(vm, "watcher-fired", 0, 0)
+				}
 			}
 		}()
 	}
@@ -389,6 +399,9 @@ func (vm *VM) run() (Addr, bool) {
 
 		// Close
 		case OpClose:
+			if verifOn {
+				verifRT(vm, "close", 0, verifChanPtr(vm.general(a)))
+			}
 			vm.general(a).Close()
 
 		// Complex
@@ -1400,16 +1413,25 @@ func (vm *VM) run() (Addr, bool) {
 					var ok bool
 					for {
 						if done == nil {
+							if verifOn {
+								verifRT(vm, "block-range", 0, v.Pointer())
+							}
 							u, ok = v.Recv()
 						} else {
 							var chosen int
 							cas := reflect.SelectCase{Dir: reflect.SelectRecv, Chan: v}
 							vm.cases = append(vm.cases, cas, vm.env.doneCase)
+							if verifOn {
+								verifRT(vm, "block-range", 1, v.Pointer())
+							}
 							chosen, u, ok = reflect.Select(vm.cases)
 							if chosen == 1 {
 								return vm.stop()
 							}
 							vm.cases = vm.cases[:0]
+						}
+						if verifOn {
+							verifRT(vm, "range-done", verifRecvVal(u, ok), v.Pointer())
 						}
 						if !ok {
 							break
@@ -1494,16 +1516,25 @@ func (vm *VM) run() (Addr, bool) {
 			ch := vm.general(a)
 			var v reflect.Value
 			if done == nil {
+				if verifOn {
+					verifRT(vm, "block-recv", 0, verifChanPtr(ch))
+				}
 				v, vm.ok = ch.Recv()
 			} else {
 				var chosen int
 				cas := reflect.SelectCase{Dir: reflect.SelectRecv, Chan: ch}
 				vm.cases = append(vm.cases, cas, vm.env.doneCase)
+				if verifOn {
+					verifRT(vm, "block-recv", 1, verifChanPtr(ch))
+				}
 				chosen, v, vm.ok = reflect.Select(vm.cases)
 				if chosen == 1 {
 					return vm.stop()
 				}
 				vm.cases = vm.cases[:0]
+			}
+			if verifOn {
+				verifRT(vm, "recv-done", verifRecvVal(v, vm.ok), verifChanPtr(ch))
 			}
 			if c != 0 {
 				vm.setFromReflectValue(c, v)
@@ -1609,13 +1640,26 @@ func (vm *VM) run() (Addr, bool) {
 			var recv reflect.Value
 			var recvOK bool
 			if done == nil || hasDefaultCase {
+				if verifOn {
+					d := 0
+					if hasDefaultCase {
+						d = 2
+					}
+					verifRT(vm, "block-select", d, uintptr(numCase))
+				}
 				chosen, recv, recvOK = reflect.Select(vm.cases)
 			} else {
 				vm.cases = append(vm.cases, vm.env.doneCase)
+				if verifOn {
+					verifRT(vm, "block-select", 1, uintptr(numCase))
+				}
 				chosen, recv, recvOK = reflect.Select(vm.cases)
 				if chosen == numCase {
 					return vm.stop()
 				}
+			}
+			if verifOn {
+				verifSelectDone(vm, chosen, recv, recvOK)
 			}
 			step := numCase - chosen
 			var pc Addr
@@ -1649,15 +1693,24 @@ func (vm *VM) run() (Addr, bool) {
 			v := reflect.New(elemType).Elem()
 			vm.getIntoReflectValue(a, v, op < 0)
 			if done == nil {
+				if verifOn {
+					verifRT(vm, "block-send", 0, verifChanPtr(ch))
+				}
 				ch.Send(v)
 			} else {
 				cas := reflect.SelectCase{Dir: reflect.SelectSend, Chan: ch, Send: v}
 				vm.cases = append(vm.cases, cas, vm.env.doneCase)
+				if verifOn {
+					verifRT(vm, "block-send", 1, verifChanPtr(ch))
+				}
 				chosen, _, _ := reflect.Select(vm.cases)
 				if chosen == 1 {
 					return vm.stop()
 				}
 				vm.cases = vm.cases[:0]
+			}
+			if verifOn {
+				verifRT(vm, "send-done", verifRecvVal(v, true), verifChanPtr(ch))
 			}
 
 		// SetField
@@ -1745,6 +1798,9 @@ func (vm *VM) run() (Addr, bool) {
 		case OpSetVar, -OpSetVar:
 			v := vm.vars[decodeInt16(b, c)]
 			vm.getIntoReflectValue(a, v, op < 0)
+			if verifOn {
+				verifRT(vm, "setvar", int(decodeInt16(b, c)), 0)
+			}
 
 		// Shl
 		case OpShl, -OpShl:
